@@ -5,6 +5,7 @@ shift, slice and conversion of the Rust code is an explicit failure point.
 -/
 import CoapLite.Lemmas.Shape.Api
 import CoapLite.Lemmas.BlockTrace
+import CoapLite.Lemmas.SpliceLow
 import CoapLite.Lemmas.Shape.Block
 import CoapLite.Lemmas.Shape.BlockValue
 import CoapLite.Lemmas.Shape.Request
@@ -88,6 +89,19 @@ option; zero budget) are errors now -/
 example : negotiate (some { num := 0, more := true, szx := 0 }) 26 16 22 = .herr (some .InternalServerError) := by
   decide
 example : negotiate none 10 0 0 = .herr (some .InternalServerError) := by decide
+
+/-- `extending_splice` at the level of `Vec::splice`'s own preconditions (`splice` panics when `start > end` or
+`end > len`): for the range the handler passes – `num · size .. num · size + size` – the low-level function
+equals the model's and never panics, whatever the buffer, the block number, the size, the payload and the
+reserve -/
+theorem block1_splice_never_panics (dst : Bytes) (num size : Nat) (payload : Bytes) (maxReserve : Nat) :
+    extendingSpliceLow dst (num * size) (num * size + size) payload maxReserve =
+      .ok (extendingSplice dst (num * size) (num * size + size) payload maxReserve) ∧
+    extendingSpliceLow dst (num * size) (num * size + size) payload maxReserve ≠ .panic :=
+  ⟨extendingSpliceLow_eq _ _ _ _ _ (Nat.le_add_right _ _), Block.block1_splice_never_panics dst num size payload maxReserve⟩
+
+/-- … and the premise is not idle: a reversed range panics -/
+example : extendingSpliceLow [1, 2, 3] 2 1 [9] 16 = .panic := by decide
 
 /-! ### tie to the source: the state the model carries is the state the code carries
 
